@@ -249,6 +249,11 @@ class SpecGen:
     def g_coalesce(self):
         r = self.rng
         members = [self.pick_any() for _ in range(r.randint(2, 3))]
+        if self.cfg["coalesce_value_fail"] and self.cfg["opt_domain"] and r.random() < 0.4:
+            # a first member that can be rejected because of its VALUE (fall-through for a reason other than absence)
+            m = self.add({"k": "opt", "key": self.key(scalar_only=True), "domain": {"t": "container", "v": r.sample(U.SCALARS, r.randint(2, 5))}}, hashable=True)
+            self.unused.remove(m)
+            members[0] = m
         if not self.cfg["coalesce_value_fail"]:
             # earlier members may only fail for a missing key: no domain, no default-less switch/case beneath
             members = [m for m in members if not self._can_fail_by_value(m)] or members[-1:]
@@ -446,7 +451,12 @@ class SpecGen:
 
 
 def gen_spec(rng, cfg):
-    return SpecGen(rng, cfg).generate()
+    """Rejection sampling against the generator invariants (deterministic: same PRNG stream)."""
+    for _ in range(50):
+        spec = SpecGen(rng, cfg).generate()
+        if spec_ok(spec):
+            return spec
+    return spec
 
 
 def spec_stats(spec):
@@ -601,6 +611,60 @@ def scalar_at_section_prefix(spec, dictionaries):
     return False
 
 
+def may_be_unhashable(by, nid, seen=None):
+    """Can this node evaluate to an unhashable value (given type-consistent dictionaries)?"""
+    seen = seen if seen is not None else set()
+    if nid in seen:
+        return False
+    seen.add(nid)
+    n = by[nid]
+    k = n["k"]
+    if k == "val":
+        return isinstance(n["v"], (list, dict))
+    if k in ("alloptions", "list", "dict"):
+        return True
+    if k == "opt":
+        if n["key"] in U.WHOLE_KEYS:
+            return True
+        d = n.get("default") or {}
+        if d.get("t") in ("const", "factory") and isinstance(d["v"], (list, dict)):
+            return True
+        if d.get("t") == "expr":
+            return may_be_unhashable(by, d["n"], seen)
+        return False
+    if k == "dataset":
+        if n.get("body") == "selector":
+            return any(may_be_unhashable(by, c, seen) for c in n.get("args", {}).values())
+        return any("n" in impl and may_be_unhashable(by, impl["n"], seen) for _, impl in n.get("overloads", []))
+    if k in ("derive", "apply", "map", "template"):
+        return False if k != "derive" else may_be_unhashable(by, n["base"], seen)
+    if k == "switch":
+        return any(may_be_unhashable(by, v, seen) for _, v in n["lookup"]) or (n.get("default") is not None and may_be_unhashable(by, n["default"], seen))
+    if k == "case":
+        return any(may_be_unhashable(by, v, seen) for _, v in n["cases"]) or (n.get("default") is not None and may_be_unhashable(by, n["default"], seen))
+    if k == "bind":
+        return any(may_be_unhashable(by, v, seen) for v in list(n["table"].values()) + [n["default"]])
+    if k in ("coalesce", "tuple"):
+        return any(may_be_unhashable(by, v, seen) for v in n.get("members", n.get("items", [])))
+    if k in ("cached", "withopts"):
+        return may_be_unhashable(by, n["inner"], seen)
+    return True
+
+
+def selector_positions(n):
+    """Node ids used by `n` as a dispatch value / bind source (must be hashable)."""
+    k = n["k"]
+    if k == "switch" and isinstance(n["dispatch"], dict):
+        return [n["dispatch"]["n"]]
+    if k == "case":
+        return [n["dispatch"]]
+    if k == "bind":
+        return [n["src"]]
+    if k == "dataset" and isinstance(n.get("dispatch"), dict):
+        return [n["dispatch"]["n"]]
+    return []
+
+
 def spec_ok(spec):
     """Generator invariants that the shrinker must preserve (each one answers a soundness hazard)."""
     import random
@@ -611,6 +675,8 @@ def spec_ok(spec):
     for n in spec["nodes"]:
         if any(c not in by for c in children(n)):
             return False
+        if any(may_be_unhashable(by, sp) for sp in selector_positions(n)):
+            return False  # hazard 4: dispatch values are hashable
         k = n["k"]
         if k == "template":
             if not all(g._str_stable(c) for c in n.get("params", {}).values()):
@@ -632,3 +698,86 @@ def spec_ok(spec):
                 if impl.get("via") == "overload" and by[impl["n"]]["k"] not in ("dataset", "derive"):
                     return False
     return True
+
+
+def live_reads(spec, root):
+    """Keys whose CALLER-supplied value can reach a reader below `root` (over-approximation).
+
+    Walks the graph from the root carrying the set of leaf paths forced by enclosing pre-set options
+    (dataset(options=), with_options, WithOptions(force), Map keys); a read of key k is 'live' unless k
+    itself is forced on that path.  Returns (live keys, forced-somewhere keys)."""
+    by = {n["id"]: n for n in spec["nodes"]}
+    live, forced_any = set(), set()
+    seen = set()
+
+    def reads_of(n):
+        k = n["k"]
+        out = []
+        if k == "opt":
+            out.append(n["key"])
+            d = n.get("default") or {}
+            if d.get("t") == "tmpl":
+                out.extend(r for r in U.template_refs(d["s"]) if not r.startswith(":"))
+        elif k == "template":
+            out.extend(r for r in U.template_refs(n["text"]) if not r.startswith(":"))
+        elif k == "switch" and isinstance(n["dispatch"], str):
+            out.append(n["dispatch"])
+        elif k == "dataset" and isinstance(n.get("dispatch"), str):
+            out.append(n["dispatch"])
+        elif k == "alloptions":
+            out.append("*")
+        return out
+
+    def visit(nid, forced):
+        key = (nid, tuple(sorted(forced)))
+        if key in seen or nid not in by:
+            return
+        seen.add(key)
+        n = by[nid]
+        k = n["k"]
+        inner_forced = set(forced)
+        if k == "dataset":
+            new = set(U.leaf_paths(n.get("options") or {}))
+            inner_forced |= new
+            for f in ("options", "default_options"):
+                for r in _preset_paths(n.get(f) or {}) - set(U.all_paths(n.get(f) or {})):
+                    live.add(r) if r not in forced else None  # template refs inside pre-sets resolve against mixed options
+        elif k == "derive" and n["how"] == "with_options":
+            inner_forced |= set(U.leaf_paths(n["options"]))
+        elif k == "withopts" and n.get("force", True):
+            inner_forced |= set(U.leaf_paths(n["options"]))
+        if k in ("derive", "withopts"):
+            for r in _preset_paths(n["options"]) - set(U.all_paths(n["options"])):
+                if r not in forced:
+                    live.add(r)
+        forced_any.update(inner_forced)
+        for r in reads_of(n):
+            if r not in inner_forced:
+                live.add(r)
+        if k == "map":
+            for it in n["iterables"].values():
+                visit(it, forced)
+            visit(n["target"], inner_forced | set(n["iterables"]))
+            forced_any.update(n["iterables"])
+            return
+        for c in children(n):
+            visit(c, inner_forced)
+
+    visit(root, set())
+    return live, forced_any
+
+
+def caller_irrelevant_paths(spec, root):
+    """Leaf paths whose caller-supplied SCALAR value cannot influence `root`: forced on every path to every
+    reader, and not a prefix / extension of any live read."""
+    live, forced_any = live_reads(spec, root)
+    if "*" in live:
+        return []
+    out = []
+    for p in forced_any:
+        if p in live:
+            continue
+        if any(q.startswith(p + ".") or p.startswith(q + ".") for q in live):
+            continue
+        out.append(p)
+    return sorted(out)
